@@ -42,12 +42,22 @@ Record eobs := { eo_stamp : N; eo_size : N; eo_limit : N; eo_delay : N; eo_h1 : 
 
 Record fobs := { fo_crtime : N; fo_ttl : Z; fo_f1 : N; fo_f2 : N; fo_found : bool; fo_in_store : bool }.
 
+(* a chunk an entry can point at: uploaded under TtlSec [ck_s] (volume TTL
+   SecondsToTTL(ck_s)), appended at [ck_append] ns; [ck_minutes] is what the real
+   ReadTTL(SecondsToTTL(ck_s)).Minutes() returned *)
+Record chk := { ck_id : N; ck_s : Z; ck_append : N; ck_minutes : N }.
+
+(* one operation on a real Filer over leveldb: clock reads around it, the operation,
+   its result and the raw content of the store (no expiry applied) after it *)
+Record fstep := { fq_t1 : N; fq_t2 : N; fq_op : fop; fq_res : fres; fq_snap : list (N * fentry) }.
+
 Inductive case :=
 | CSeconds (l : list sobs)
 | CTtl (l : list tobs)
 | CVolume (v : vobs)
 | CExpire (vttl : string) (count unit : N) (l : list eobs)
-| CFiler (l : list fobs).
+| CFiler (l : list fobs)
+| CFilerSeq (chunks : list chk) (steps : list fstep).
 
 Definition either (b x y : bool) : bool := Bool.eqb b x || Bool.eqb b y.
 Definition pair_eqb (p : N * N) (a b : N) : bool := (fst p =? a) && (snd p =? b).
@@ -129,17 +139,25 @@ Definition vol_prop (v : vobs) : bool :=
   forallb (needle_prop v) (vo_needles v) &&
   implb (existsb (fun o => alive_past o (vo_d2 v)) (vo_needles v)) (negb (vo_deleted v)).
 
+(* Triggers, per needle and on the IMPLEMENTATION's observations: a needle the real
+   compaction dropped while it was alive must itself be inside the exact set
+   [compaction_early] of c09_compaction_early_iff (finding 1 when the volume span is the
+   cause, else finding 2), and a deletion of the volume while a needle was alive needs
+   such a needle inside [expiry_early] of c09_expiry_early_iff (finding 3); the same
+   predicates as in c09_volume_not_removed_early_partial.  One violating needle outside
+   its set and the case carries no trigger. *)
 Definition vol_trig (v : vobs) : option N :=
   let vt := read_ttl (vo_vttl v) in
-  let early o := let st := stored_needle (vo_vttl v) o in
-                 vo_compact v && read_visible ((vo_c2 v + 1) * NS) st && negb (compaction_keeps (vo_c2 v) vt st) in
-  let by_ttl o := let st := stored_needle (vo_vttl v) o in
-                  negb (expiring st) || (volume_span_s vt <? minutes (n_ttl st) * 60) in
-  let by_lm o := let st := stored_needle (vo_vttl v) o in last_modified st * NS <? append_at_ns st in
-  if existsb (fun o => early o && by_ttl o) (vo_needles v) then Some 1
-  else if existsb (fun o => early o && by_lm o) (vo_needles v) then Some 2
-  else if existsb (fun o => read_visible ((vo_d2 v + 1) * NS) (stored_needle (vo_vttl v) o)) (vo_needles v)
-          && volume_deleted (vo_d2 v) (vol_of v) then Some 3
+  let st o := stored_needle (vo_vttl v) o in
+  let cviol := filter (fun o => vo_compact v && alive_past o (vo_c2 v) && negb (b_kept o)) (vo_needles v) in
+  let dviol := existsb (fun o => alive_past o (vo_d2 v)) (vo_needles v) && vo_deleted v in
+  let by_ttl o := negb (expiring (st o)) || (volume_span_s vt <? minutes (n_ttl (st o)) * 60) in
+  let c_ok := forallb (fun o => compaction_early vt (st o)) cviol in
+  let d_ok := implb dviol (existsb (fun o => alive_past o (vo_d2 v) && expiry_early (vol_of v) (st o)) (vo_needles v)) in
+  if negb (c_ok && d_ok) then None
+  else if existsb by_ttl cviol then Some 1
+  else if negb (Nat.eqb (List.length cviol) 0) then Some 2
+  else if dviol then Some 3
   else None.
 
 (* ---- expiry predicates ---- *)
@@ -163,11 +181,124 @@ Definition filer_spec (o : fobs) (now : N) : bool :=
 Definition filer_prop (o : fobs) : bool :=
   either (fo_found o) (filer_spec o (fo_f1 o)) (filer_spec o (fo_f2 o)) && Bool.eqb (fo_in_store o) (fo_found o).
 
+(* ---- filer histories ---- *)
+Fixpoint list_eqb {A : Type} (f : A -> A -> bool) (a b : list A) : bool :=
+  match a, b with
+  | [], [] => true
+  | x :: a', y :: b' => f x y && list_eqb f a' b'
+  | _, _ => false
+  end.
+Definition fentry_eqb (a b : fentry) : bool :=
+  (fe_crtime a =? fe_crtime b) && (fe_mtime a =? fe_mtime b) && (fe_ttl a =? fe_ttl b)%Z &&
+  list_eqb N.eqb (fe_chunks a) (fe_chunks b).
+Definition fpair_eqb (a b : N * fentry) : bool := (fst a =? fst b) && fentry_eqb (snd a) (snd b).
+Definition fres_eqb (a b : fres) : bool :=
+  match a, b with
+  | RDone x, RDone y => x =? y
+  | RFound None, RFound None => true
+  | RFound (Some x), RFound (Some y) => fentry_eqb x y
+  | RListed x, RListed y => list_eqb fpair_eqb x y
+  | _, _ => false
+  end.
+Definition fout_eqb (a b : fres * fstore) : bool := fres_eqb (fst a) (fst b) && list_eqb fpair_eqb (snd a) (snd b).
+
+Definition fseq_model (clock : fstep -> N) (steps : list fstep) : list (fres * fstore) :=
+  snd (filer_run [] (map (fun s => (clock s, fq_op s)) steps)).
+
+(* the model replays the history from the empty directory, with every clock at the start
+   of its bracket or every clock at the end (the harness retries a history in which a
+   deadline falls inside a bracket) *)
+Definition fseq_corr (chunks : list chk) (steps : list fstep) : bool :=
+  forallb (fun c => minutes (filer_volume_ttl (ck_s c)) =? ck_minutes c) chunks &&
+  (let impl := map (fun s => (fq_res s, fq_snap s)) steps in
+   list_eqb fout_eqb (fseq_model fq_t1 steps) impl || list_eqb fout_eqb (fseq_model fq_t2 steps) impl).
+
+(* the oracle, on the implementation's observations only *)
+Definition within (c : N) (s : Z) (t : N) : bool :=
+  (s <=? 0)%Z || (Z.of_N t <=? (Z.of_N c + s) * 1000000000)%Z.
+Definition chunk_alive (chunks : list chk) (t : N) (id : N) : bool :=
+  match find (fun c => ck_id c =? id) chunks with
+  | Some c => (ck_minutes c =? 0) || (t <? ck_append c + ck_minutes c * 60 * 1000000000)
+  | None => false
+  end.
+(* the writer did its part: every chunk was uploaded under the entry's TtlSec, after
+   the second the entry's Crtime was truncated to *)
+Definition disciplined (chunks : list chk) (e : fentry) : bool :=
+  forallb (fun id => match find (fun c => ck_id c =? id) chunks with
+                     | Some c => (ck_s c =? fe_ttl e)%Z && (fe_crtime e * 1000000000 <? ck_append c)
+                     | None => false end) (fe_chunks e).
+Definition s_trig (s : Z) : bool := (60 <=? s)%Z && negb (representable s).
+
+(* a returned entry is what the store held, inside its Crtime + TtlSec window *)
+Definition seen_ok (prev : list (N * fentry)) (s : fstep) (p : N) (e : fentry) : bool :=
+  within (fe_crtime e) (fe_ttl e) (fq_t1 s) &&
+  match fs_get prev p with Some x => fentry_eqb x e | None => false end.
+(* ... and its data can still be read *)
+Definition seen_data_ok (chunks : list chk) (s : fstep) (e : fentry) : bool :=
+  implb (disciplined chunks e) (forallb (chunk_alive chunks (fq_t1 s)) (fe_chunks e)).
+(* an entry that was not returned had passed its window *)
+Definition gone_ok (s : fstep) (e : fentry) : bool := negb (within (fe_crtime e) (fe_ttl e) (fq_t2 s)).
+
+(* a rewrite of a visible entry keeps its Crtime and takes everything else from the
+   new entry; a write to a free (or expired) name stores the entry as given *)
+Definition write_ok (prev : list (N * fentry)) (s : fstep) (p : N) (e : fentry) (upd : bool) : bool :=
+  match fs_get prev p with
+  | Some oe =>
+      if within (fe_crtime oe) (fe_ttl oe) (fq_t2 s)
+      then match fs_get (fq_snap s) p with
+           | Some ne => (fe_crtime ne =? fe_crtime oe) && (fe_mtime ne =? fe_mtime e) &&
+                        (fe_ttl ne =? fe_ttl e)%Z && list_eqb N.eqb (fe_chunks ne) (fe_chunks e)
+           | None => false end
+      else if upd then match fs_get (fq_snap s) p with None => true | Some _ => false end
+      else match fs_get (fq_snap s) p with Some ne => fentry_eqb ne e | None => false end
+  | None =>
+      if upd then match fs_get (fq_snap s) p with None => true | Some _ => false end
+      else match fs_get (fq_snap s) p with Some ne => fentry_eqb ne e | None => false end
+  end.
+
+Definition fstep_struct_ok (prev : list (N * fentry)) (s : fstep) : bool :=
+  match fq_op s, fq_res s with
+  | FFind p, RFound (Some e) => seen_ok prev s p e
+  | FFind p, RFound None => match fs_get prev p with Some x => gone_ok s x | None => true end
+  | FList, RListed l =>
+      forallb (fun qe => seen_ok prev s (fst qe) (snd qe)) l &&
+      forallb (fun qe => match fs_get l (fst qe) with Some _ => true | None => gone_ok s (snd qe) end) prev
+  | FCreate p e false, RDone 0 => write_ok prev s p e false
+  | FUpdate p e, RDone 0 => write_ok prev s p e true
+  | FUpdate p e, RDone _ => match fs_get prev p with Some x => gone_ok s x | None => true end
+  | _, _ => true
+  end.
+Definition fstep_seen (s : fstep) : list fentry :=
+  match fq_res s with
+  | RFound (Some e) => [e]
+  | RListed l => map snd l
+  | _ => []
+  end.
+
+Fixpoint fseq_fold (f : list (N * fentry) -> fstep -> bool) (prev : list (N * fentry)) (steps : list fstep) : bool :=
+  match steps with
+  | [] => true
+  | s :: r => f prev s && fseq_fold f (fq_snap s) r
+  end.
+Definition fseq_struct_ok (steps : list fstep) : bool := fseq_fold fstep_struct_ok [] steps.
+Definition fseq_data_ok (chunks : list chk) (steps : list fstep) : bool :=
+  forallb (fun s => forallb (seen_data_ok chunks s) (fstep_seen s)) steps.
+(* finding 0 seen from the filer: the only data failures allowed under the trigger are
+   chunks whose own TtlSec SecondsToTTL rounded down *)
+Definition fseq_trig (chunks : list chk) (steps : list fstep) : option N :=
+  let excused s e := forallb (fun id => chunk_alive chunks (fq_t1 s) id ||
+                        match find (fun c => ck_id c =? id) chunks with Some c => s_trig (ck_s c) | None => false end)
+                       (fe_chunks e) in
+  if fseq_struct_ok steps &&
+     forallb (fun s => forallb (fun e => seen_data_ok chunks s e || excused s e) (fstep_seen s)) steps
+  then Some 0 else None.
+
 Definition check (c : case) : outcome :=
   match c with
   | CSeconds l =>
       {| o_corr := forallb sec_corr l; o_prop := forallb sec_prop l;
-         o_trig := if existsb sec_trig l then Some 0 else None;
+         (* per element: every failing value must itself be inside the trigger set *)
+         o_trig := if forallb (fun o => sec_prop o || sec_trig o) l then Some 0 else None;
          o_nontrivial := existsb (fun o => (0 <? so_s o)%Z) l |}
   | CTtl l =>
       {| o_corr := forallb ttl_corr l; o_prop := forallb ttl_prop l; o_trig := None;
@@ -182,6 +313,11 @@ Definition check (c : case) : outcome :=
   | CFiler l =>
       {| o_corr := forallb filer_corr l; o_prop := forallb filer_prop l; o_trig := None;
          o_nontrivial := negb (Nat.eqb (List.length l) 0) |}
+  | CFilerSeq chunks steps =>
+      {| o_corr := fseq_corr chunks steps;
+         o_prop := fseq_struct_ok steps && fseq_data_ok chunks steps;
+         o_trig := fseq_trig chunks steps;
+         o_nontrivial := existsb (fun s => negb (Nat.eqb (List.length (fstep_seen s)) 0)) steps |}
   end.
 
 Definition summarize_cases (l : list case) : summary := summarize check l.
